@@ -39,6 +39,8 @@ def bucket_field(f, ins):
 
 
 def run(m, rep, tier):
+    from .. import canaries
+    canaries.run(m, rep, ('nw',))
     roles = Roles(m)
     mod = roles.unit
     if mod is None:
